@@ -573,7 +573,7 @@ def _tag(first):
 
 def CASES(tier, seed):
     thorough = tier == 'thorough'
-    big = dict(max_paths=2000000, max_wall_s=2800 if thorough else 220, hard_timeout_s=3000 if thorough else 235, validate_paths=2)
+    big = dict(max_paths=2000000, max_wall_s=2800 if thorough else 400, hard_timeout_s=3000 if thorough else 430, validate_paths=2)
     cases = [dict(name='models.selftest', fn='model_selftest', params={}, opts=dict(validate_paths=1))]
     cases.append(dict(name=f'events[n={5 if thorough else 4}]', fn='events_case', params=dict(n_ops=5 if thorough else 4), opts=dict(big)))
     # alphabet of the first step: set/read/del/preload/short{a}/short{}/subcache/close/exit = 9 (8 without sub-cache)
